@@ -422,13 +422,16 @@ fn replay_one(beh: &Value, tag: &str) -> (usize, usize, Vec<Value>, Option<Strin
                         4 => (4 + (i as u32 * 7919) % 60000) as u16, // "any other value"
                         l => l as u16,
                     };
-                    let rt = ref_time_for(v["refPos"].as_str().unwrap(), 16.0);
+                    // the update interval varies with the step (whole and fractional seconds); the reference time is
+                    // placed relative to eight times that interval
+                    let interval = [16.0, 0.5, 2.5, 1.0, 64.0][i % 5];
+                    let rt = ref_time_for(v["refPos"].as_str().unwrap(), interval);
                     // bound b ns, exactly: dispersion = b * 2^-30 s is not integral in ns; use the offset/delay/disp split
                     // b = 7812500 * k  <->  k * 2^-7 s of dispersion
                     let b = v["b"].as_i64().unwrap();
                     let k = (b / 7_812_500) as i32;
                     let refid = if v["refMatch"].as_bool().unwrap() { PHC_REFID } else { 0x7f7f_0101 };
-                    Some(tracking(leap, rt, cf(0, -30), cf(0, -30), cf(k, -7), 16.0, refid))
+                    Some(tracking(leap, rt, cf(0, -30), cf(0, -30), cf(k, -7), interval, refid))
                 });
             }
             "PollDecide" => {
